@@ -79,6 +79,11 @@ CHECKS['C16'] = dict(cat='model_checking', ref='5/C16',
     note='Single-leaf edits only; hashstructure collisions are not excluded.',
     tech='TLA+ protocol model with measured constant; TLC; leaf-edit sweep on real ConfigManager across processes; protocol replay on real coordinator + sidecar')
 
+CHECKS['C11'] = dict(cat='model_checking', ref='5/C11',
+    text='spec/Inject.tla abstracts a configuration to its secret slots in file order and specifies marshal (masking) + restoration (mode pinned to the tree); TLC enumerates 10 080 shapes (alertmanager auth x 1-2 jobs x 5 auth kinds x 0-2 remote write x 0-2 remote read with 4 auth kinds) and checks SecretsPreserved / NoJobSecretInFile; every shape (quick: 2 500) is rendered to a real YAML with TLS, params, limits, honor flags, relabel rules and three discovery kinds, run through the real ConfigManager + Injector (both update orders, with/without self-monitor job, assignment with an empty job and an unknown job); the written file is loaded with Prometheus config.Load and compared field-wise with the original (jobs and order, static targets = assignment, proxy URL, http, no basic auth / TLS, ingestion settings, no job secret string in the file, global / rules / alerting / remote sections incl. secret values); slot values must equal the prediction; TLC (InjectEval) evaluates C11.',
+    note='The loader of the vendored Prometheus is the reference for "valid configuration".',
+    tech='TLA+ slot model of marshal/restore; TLC enumeration; replay on real injector; field-wise comparison after config.Load; TLC evaluation')
+
 ALL = ['C%02d' % i for i in range(1, 21)]
 
 
